@@ -29,23 +29,6 @@ fn describe(ops: &[WOp]) -> String {
     ops.iter().map(|o| o.short()).collect::<Vec<_>>().join(" ")
 }
 
-/// Tags written by `ops` plus the Ends that end of input implies for masters still open.
-fn expected_with_eof_ends(ops: &[WOp]) -> Vec<TagV> {
-    let mut t = wcases::written_tags(ops);
-    let mut open: Vec<u64> = Vec::new();
-    for x in &t {
-        if x.is_start() {
-            open.push(x.id);
-        } else if x.is_end() {
-            open.pop();
-        }
-    }
-    while let Some(id) = open.pop() {
-        t.push(TagV::new(id, Val::End));
-    }
-    t
-}
-
 impl Check for C10 {
     type Case = Case;
     fn id(&self) -> &'static str {
@@ -59,8 +42,8 @@ impl Check for C10 {
     }
     fn runs(&self, tier: Tier) -> u64 {
         match tier {
-            Tier::Quick => 60_000,
-            Tier::Thorough => 3_000_000,
+            Tier::Quick => 2_000_000,
+            Tier::Thorough => 60_000_000,
         }
     }
 
@@ -172,7 +155,7 @@ impl Check for C10 {
             prev = *s;
         }
         // positions of every Start in the final output
-        let all_items = expected_with_eof_ends(&c.ops);
+        let all_items = wcases::expected_with_eof_ends(&c.ops);
         let (wk, end) = match walk(&c.spec, fin, &all_items, 0) {
             Ok(x) => x,
             Err(e) => fail!("final-output-wrong", "the final output does not decode to the written tags (item {}: {})\n calls: {}", e.item, e.what, describe(&c.ops)),
@@ -234,7 +217,7 @@ impl Check for C10 {
                     };
                     if completes {
                         // (b) everything accepted so far is visible and parses to exactly that
-                        let want = expected_with_eof_ends(prefix);
+                        let want = wcases::expected_with_eof_ends(prefix);
                         let (got, stop) = ref_decode(&c.spec, &fin[..d]);
                         if stop != DecStop::Clean || got != want {
                             let k = got.iter().zip(want.iter()).take_while(|(a, b)| a == b).count();
